@@ -399,9 +399,9 @@ func runGridCase(w *wctx, c gridCase) {
 					} else {
 						w.count("write-only")
 					}
-				} else if !reflect.DeepEqual(r.got, r.v.v) {
+				} else if !sameAccepted(r.got, r.v.v) {
 					w.fail("get-after-set:"+call, "fail", in(gcall),
-						"accepted value %s but Get then returns %s", describe(r.v.v), describe(r.got))
+						"accepted value %s but Get then returns %s%s", describe(r.v.v), describe(r.got), pointerNote(r.got, r.v.v))
 				} else {
 					w.count("get-after-set-ok")
 				}
@@ -440,3 +440,20 @@ func gridScenario(name string, kinds func(tier string) []objKind, par int) *scen
 }
 
 func isQLenName(n string) bool { return n == mangos.OptionReadQLen || n == mangos.OptionWriteQLen }
+
+// sameAccepted: what Get returns is what Set accepted - for a pointer (a *tls.Config the
+// application may go on completing, or compare by identity) the very same pointer.
+func sameAccepted(got, set interface{}) bool {
+	if rv := reflect.ValueOf(set); rv.IsValid() && rv.Kind() == reflect.Ptr && !rv.IsNil() {
+		gv := reflect.ValueOf(got)
+		return gv.IsValid() && gv.Kind() == reflect.Ptr && gv.Pointer() == rv.Pointer()
+	}
+	return reflect.DeepEqual(got, set)
+}
+
+func pointerNote(got, set interface{}) string {
+	if rv := reflect.ValueOf(set); rv.IsValid() && rv.Kind() == reflect.Ptr && !rv.IsNil() && reflect.DeepEqual(got, set) {
+		return " (an equal copy, not the object that was set)"
+	}
+	return ""
+}
